@@ -25,5 +25,9 @@ let () = run_protocol [
   "exp1_cdf", (function [l; r] -> VF (exp1_cdf o (gf l) (gf r)) | _ -> failwith "arity");
   "exp1_ppf", (function [l; u] -> VF (exp1_ppf o (gf l) (gf u)) | _ -> failwith "arity");
   "exp2_cdf", (function [l; r] -> VF (exp2_cdf o (gf l) (gf r)) | _ -> failwith "arity");
+  "var_no_scaling", (function [v; g] -> VF (var_no_scaling o (gf v) (gf g)) | _ -> failwith "arity");
+  "var_coarse_graining", (function [d; l; v; g; vol] -> VF (var_coarse_graining o (gz d) (gf l) (gf v) (gf g) (gf vol)) | _ -> failwith "arity");
+  "upscale_factor", (function [sv; v; g] -> VF (upscale_factor o (gf sv) (gf v) (gf g)) | _ -> failwith "arity");
+  "upscale_field", (function [f; sv; v; g] -> VV (upscale_field o (gv f) (gv sv) (gf v) (gf g)) | _ -> failwith "arity");
   "exp2_ppf", (function [l; u] -> VF (exp2_ppf o (gf l) (gf u)) | _ -> failwith "arity");
 ]
